@@ -36,6 +36,10 @@ func (h *hashMergeStrategy) evaluate(m *MethodEvaluator) error {
 		return err
 	}
 
+	if len(evaluatedArgs) == 0 {
+		return nil
+	}
+
 	hashT := m.evaluatedObjectT.DeepCopy()
 
 	hashT.MergeHash(evaluatedArgs[0])
@@ -67,6 +71,10 @@ func (h *hashDestructionMergeStrategy) evaluate(m *MethodEvaluator) error {
 	err = checkAndPropagateArgs(m, "Hash", methodT, evaluatedArgs)
 	if err != nil {
 		return err
+	}
+
+	if len(evaluatedArgs) == 0 {
+		return nil
 	}
 
 	hashT := m.evaluatedObjectT
